@@ -1042,7 +1042,9 @@ impl<T> AutoGrowCircularQueue<T> {
         // Fast bulk destruction instead of individual pops
         if self.len > 0 {
             unsafe {
-                if self.head <= self.tail {
+                // head == tail with len > 0 means the ring is full (push_bulk can
+                // fill every slot), which is the two-region case
+                if self.head < self.tail {
                     // Single contiguous region
                     for i in self.head..self.tail {
                         ptr::drop_in_place(self.buffer.add(i));
@@ -1257,7 +1259,8 @@ impl<T: fmt::Debug> fmt::Debug for AutoGrowCircularQueue<T> {
             return list.finish();
         }
 
-        if self.head <= self.tail {
+        // head == tail with len > 0 means the ring is full: two regions
+        if self.head < self.tail {
             // Single contiguous region
             for i in self.head..self.tail {
                 // SAFETY: All elements between head and tail are initialized
@@ -1287,7 +1290,8 @@ impl<T: Clone> Clone for AutoGrowCircularQueue<T> {
             return new_queue;
         }
 
-        if self.head <= self.tail {
+        // head == tail with len > 0 means the ring is full: two regions
+        if self.head < self.tail {
             // Single contiguous region - bulk clone
             for i in self.head..self.tail {
                 // SAFETY: All elements between head and tail are initialized
